@@ -20,6 +20,7 @@ type Ev struct {
 	bound    map[string]Val
 	oldEv    *Ev
 	beforeEv *Ev
+	modKeys  []string // heap locations of the contract being evaluated (for onlyobjects)
 	info     *types.Info
 	pkg      *types.Package
 	nosafety bool
@@ -64,6 +65,14 @@ func (e *Ev) intOf(v Val, n ast.Node) Term {
 	switch x := v.(type) {
 	case VInt:
 		return x.T
+	case VRef:
+		if e.contract {
+			return x.T
+		}
+	case VErr:
+		if e.contract {
+			return x.T
+		}
 	}
 	e.unsupp(n, "expected an integer, got %T", v)
 	return ""
@@ -342,6 +351,8 @@ func (e *Ev) binop(op token.Token, l, r Val, n ast.Node) Val {
 			t = sEq(x.T, "0")
 		case VSubmatch:
 			t = sNot(x.Hit)
+		case VMapRef:
+			t = sEq(x.T, "0")
 		default:
 			e.unsupp(n, "comparison of %T with nil", l)
 		}
@@ -479,6 +490,9 @@ func (e *Ev) binop(op token.Token, l, r Val, n ast.Node) Val {
 			}
 		}
 	case VRef:
+		if bi, ok := r.(VInt); ok && e.contract {
+			r = VRef{bi.T, a.Elem}
+		}
 		if b, ok := r.(VRef); ok {
 			switch op {
 			case token.EQL:
@@ -577,6 +591,8 @@ func (e *Ev) evIndex(x *ast.IndexExpr, commaOk bool) Val {
 		return e.heapMapLookup(b, e.ev(x.Index), commaOk, x)
 	case VStrMap:
 		return e.strMapLookup(b, e.ev(x.Index), commaOk, x)
+	case VMapRef:
+		return e.mapRefLookup(b, e.ev(x.Index), commaOk, x)
 	case VSubmatch:
 		i := e.intOf(e.ev(x.Index), x.Index)
 		k, err := strconv.Atoi(i)
@@ -709,7 +725,25 @@ func (e *Ev) fieldOf(base Val, name string, n ast.Node) Val {
 		}
 		e.unsupp(n, "struct %s has no field %s", b.TName, name)
 	case VRef:
+		if e.fx.prog.fieldType(b.Elem, name) == nil {
+			// promoted through an embedded pointer
+			stt := e.fx.prog.structByName(b.Elem)
+			if stt != nil {
+				for i := 0; i < stt.NumFields(); i++ {
+					f := stt.Field(i)
+					if !f.Embedded() {
+						continue
+					}
+					if en, ok := elemName(f.Type()); ok && e.fx.prog.heapHasField(en, name) {
+						inner := e.heapRead(b, f.Name(), n).(VRef)
+						return e.heapRead(inner, name, n)
+					}
+				}
+			}
+		}
 		return e.heapRead(b, name, n)
+	case VSub:
+		return e.subField(b, name, n)
 	case VErr:
 		// fields of *Error are not modelled (message text)
 		e.unsupp(n, "field %s of an error value is not modelled", name)
@@ -787,6 +821,11 @@ func fieldIndex(st *types.Struct, name string) int {
 func (e *Ev) coerceTo(v Val, t types.Type, n ast.Node) Val {
 	if _, ok := v.(VNil); ok && t != nil {
 		return e.fx.zero(t)
+	}
+	if t != nil && isErrorLike(t) {
+		if r, ok := v.(VRef); ok {
+			return VErr{r.T} // a pointer to an error struct used as an error value
+		}
 	}
 	if t != nil && isEmptyInterface(t) {
 		return e.toIface(v, n)
